@@ -238,7 +238,75 @@ type decoded struct {
 	panicv  any
 }
 
+// reused destinations: every input of a run is also decoded into one long-lived variable per decoder kind, and a
+// struct copy of the previous content is kept; what an accepted decode leaves there must render like the fresh
+// decode, and the copy taken earlier must not change (decoders must not depend on, or write into, what the
+// destination held before)
+var (
+	reS1, reS1U  cose.Sign1Message
+	reSM         cose.SignMessage
+	reSig        cose.Signature
+	reCopyRender = map[string]func() string{}
+	reCopyWant   = map[string]string{}
+)
+
+func reuseCheck(kind string, orig []byte, fresh *decoded) {
+	if len(reuseAnomalies) >= 5 || fresh.paniced {
+		return
+	}
+	var err error
+	var render func() string
+	var takeCopy func() func() string
+	p, _ := protect(func() {
+		switch kind {
+		case "DSign1":
+			err = reS1.UnmarshalCBOR(append([]byte{}, orig...))
+			render = func() string { return oSign1(&reS1) }
+			takeCopy = func() func() string { cp := reS1; return func() string { return oSign1(&cp) } }
+		case "DSign1U":
+			err = (*cose.UntaggedSign1Message)(&reS1U).UnmarshalCBOR(append([]byte{}, orig...))
+			render = func() string { return oSign1(&reS1U) }
+			takeCopy = func() func() string { cp := reS1U; return func() string { return oSign1(&cp) } }
+		case "DSignMsg":
+			err = reSM.UnmarshalCBOR(append([]byte{}, orig...))
+			render = func() string { return oSignMsg(&reSM) }
+			takeCopy = func() func() string { cp := reSM; return func() string { return oSignMsg(&cp) } }
+		case "DSignature":
+			err = reSig.UnmarshalCBOR(append([]byte{}, orig...))
+			render = func() string { return oSigv(&reSig) }
+			takeCopy = func() func() string { cp := reSig; return func() string { return oSigv(&cp) } }
+		}
+	})
+	if p || render == nil {
+		return
+	}
+	rep := map[string]any{"kind": kind, "data": trunc(hx(orig), 600)}
+	// the struct copy taken after the previous accepted decode must be untouched, whatever this decode did
+	if cr, ok := reCopyRender[kind]; ok {
+		if got := cr(); got != reCopyWant[kind] {
+			reuseAnomalies = append(reuseAnomalies, anomaly{"a copy of a decoded " + kind + " value was changed by a later decode into the same variable: " + trunc(got, 300) + " was " + trunc(reCopyWant[kind], 300), rep})
+			delete(reCopyRender, kind)
+			return
+		}
+	}
+	if (err == nil) != (fresh.err == nil) {
+		reuseAnomalies = append(reuseAnomalies, anomaly{fmt.Sprintf("decoding %s into a used variable gives %v, into a fresh one %v", kind, err, fresh.err), rep})
+		return
+	}
+	if err == nil {
+		if got := render(); got != fresh.value {
+			reuseAnomalies = append(reuseAnomalies, anomaly{"a " + kind + " decoded into a used variable differs from the same bytes decoded into a fresh one: " + trunc(got, 300) + " vs " + trunc(fresh.value, 300), rep})
+			return
+		}
+		cr := takeCopy()
+		reCopyRender[kind] = cr
+		reCopyWant[kind] = cr()
+	}
+}
+
 func decodeKind(kind string, data []byte) (d decoded) {
+	origInput := append([]byte{}, data...)
+	defer func() { reuseCheck(kind, origInput, &d) }()
 	// the decoder reads a private copy of the input which is overwritten as soon as the decoder returns
 	// (a receive buffer being reused): nothing the caller keeps may depend on the buffer afterwards
 	data = append(make([]byte, 0, len(data)+8), data...)
